@@ -210,6 +210,26 @@ GEN = obj(
     texpr="G[int]",
 )
 GEN_SRC = "T = TypeVar('T')"
+# generic inheritance whose parameter order differs from the order of appearance in the bases
+GEN2_SRC = """
+T = TypeVar('T')
+U = TypeVar('U')
+
+@dataclass
+class GA(Generic[T]):
+    a: T
+
+@dataclass
+class GB(Generic[U]):
+    b: U
+"""
+GEN2 = obj(
+    "GC",
+    F("b", INT, texpr="U"),
+    F("a", STR, texpr="T"),
+    raw_src="@dataclass\nclass GC(GA[T], GB[U], Generic[U, T]):\n    pass\n",
+    texpr="GC[int, str]",
+)
 KWONLY = obj("Kw", F("a", INT, default=V("0")), F("b", STR), dargs="kw_only=True")
 FROZEN = obj("Fz", F("a", INT), F("b", lst(STR), default=Fy("list")), dargs="frozen=True")
 SLOTS = obj("Sl", F("a", INT), F("b", opt(INT), default=V("None")), dargs="slots=True")
@@ -302,6 +322,7 @@ OBJECTS: Dict[str, Tuple[Sp, str]] = {
     "FlatMap": (FLATMAP, ""),
     "Aliased": (ALIASED, ""),
     "Generic": (GEN, GEN_SRC),
+    "GenericSwap": (GEN2, GEN2_SRC),
     "KwOnly": (KWONLY, ""),
     "Frozen": (FROZEN, ""),
     "Slots": (SLOTS, ""),
